@@ -71,6 +71,18 @@ NEEDS = {
  'C18-d': ('C18', [], 'the reverse of repair F20: extend(args) iterates over the list it appends to, so extend by the list itself never terminates'),
  'C19-c': ('C19', ['C08'], 'categorize merges a high+low surrogate pair into the astral character it encodes: one token fewer than characters, foreign code point in the output'),
  'C20-c': ('C20', [], 'Buffer.__next__ fetches the gap after a forward() jump with one list comprehension: items are lost when the iterator ends inside it'),
+ 'C01-d': ('C01', ['C19'], 'categorize uses a 255-slot lookup table with an off-by-one guard: U+00FF raises IndexError inside the generator, Buffer.peek takes it for end of input and the document is silently cut at `ÿ`'),
+ 'C02-d': ('C02', ['C12'], 'a math switch met in math mode no longer opens a formula: `$a \\text{if $b$} c$` loses the inner region (arguments of commands inside math are read in math mode)'),
+ 'C03-d': ('C03', ['C04'], '__match__ treats every falsy name as "no name": find_all([]) and find_all(\'\') return every node instead of nothing'),
+ 'C05-d': ('C05', ['C15'], 'a whole parsed document passed as new material is flattened through the whitespace-filtered `contents`: blank-only text at the top level of the fragment is lost'),
+ 'C07-d': ('C07', ['C06'], 'read_env drops the end-of-input test: an unclosed environment whose last body command has the environment name as first argument (nested same-name environment, `\\label{center}`) raises RuntimeError in both modes'),
+ 'C09-d': ('C09', ['C12'], 'bracket groups read in math mode pair inner brackets: `$\\cmd[a[b]c]{d}$` closes too late, a lone `[` inside needs a partner'),
+ 'C12-d': ('C12', ['C19'], '`$`-runs are cut by parity: in `$$x$$$y$` the three dollars become `$` `$$`, so a display region directly followed by an inline one fails'),
+ 'C13-d': ('C13', [], 'CharToLineOffset remembers the line of the previous lookup with a `>` instead of `>=` guard: after a lookup on line k, the offset of the line feed ending line k-1 gives (k, -1)'),
+ 'C14-d': ('C14', ['C18'], 'a full-range slice of a TexArgs returns the list itself: `saved = node.args[:]; node.args.reverse(); node.args = saved` keeps the reversal'),
+ 'C15-d': ('C15', ['C05'], 'TexExpr.insert inserts the pieces back to front at the same index: a multi-piece insert at an index past the end comes out reversed'),
+ 'C16-d': ('C16', ['C19', 'C08'], 'untabled characters that are not str.isprintable() (NBSP, soft hyphen, zero-width space, BOM, controls) are categorised Ignored: one of them between a command name and a letter vanishes on save 1 and the name grows on load 2'),
+ 'C17-d': ('C17', [], 'read() strips leading U+FEFF only for non-str input forms: the same characters as list/generator/file lose the BOM and shift every position'),
 }
 
 
